@@ -1,13 +1,236 @@
 import AFDriver.Wire
 import AFModel.Persist
 import AFModel.DictForm
+import AFModel.DictJson
+import AFModel.FloatOps
 
 open Lean (Json)
 open AF AF.Wire
 
 namespace AF.Driver
 
+/-! ### wire: the rich composition (`PN`), the JSON structure (`JV`), the real dictionary (`DV`) -/
+
+def pkindOf : String → Except String PKind
+  | "Uniform" => pure .uniform
+  | "LogUniform" => pure .logUniform
+  | "Gaussian" => pure .gaussian
+  | "LogGaussian" => pure .logGaussian
+  | s => throw s!"bad prior kind {s}"
+
+def scalOfJson (j : Json) : Except String (Scal Float) := do
+  match j with
+  | .null => pure .null
+  | .bool b => pure (.bool b)
+  | _ =>
+    match j.getObjVal? "i" with
+    | .ok v => pure (.int (← v.getInt?))
+    | .error _ =>
+      match j.getObjVal? "f" with
+      | .ok v => pure (.num (← floatOfJson v))
+      | .error _ =>
+        match j.getObjVal? "s" with
+        | .ok v => pure (.str (← v.getStr?))
+        | .error _ => throw "bad scalar"
+
+partial def pnOfJson (j : Json) : Except String (PN Float) := do
+  let attrsOf (key : String) : Except String (List (String × PN Float)) := do
+    let arr ← getArr j key
+    arr.toList.mapM (fun a => do
+      let pair ← a.getArr?
+      if pair.size != 2 then throw "bad attr"
+      pure ((← pair[0]!.getStr?), (← pnOfJson pair[1]!)))
+  let listOf (key : String) : Except String (List (PN Float)) := do
+    match j.getObjVal? key with
+    | .ok (Json.arr arr) => arr.toList.mapM pnOfJson
+    | _ => pure []
+  match ← getStr j "k" with
+  | "prior" =>
+      let d : PDesc Float := {
+        kind := (← pkindOf (← getStr j "kind")), lo := (← getFloat j "lo"), hi := (← getFloat j "hi"),
+        mean := (getFloat j "mean").toOption.getD 0.0, sigma := (getFloat j "sigma").toOption.getD 0.0 }
+      pure (.prior (← getNat j "id") d)
+  | "lit" => pure (.lit (← scalOfJson (← j.getObjVal? "v")))
+  | "model" => pure (.model (← getStr j "cp") (← attrsOf "attrs") (← listOf "asserts"))
+  | "inst" => pure (.inst (← getStr j "cp") (← attrsOf "attrs"))
+  | "coll" => pure (.coll (← getNat j "n") (← attrsOf "attrs") (← listOf "asserts"))
+  | "tuple" => pure (.tuple (← attrsOf "attrs"))
+  | "arith" => pure (.arith (← getStr j "ct") (← getStr j "ln") (← getStr j "rn")
+        (← pnOfJson (← j.getObjVal? "l")) (← pnOfJson (← j.getObjVal? "r")))
+  | "both" => pure (.both (← pnOfJson (← j.getObjVal? "x")) (← pnOfJson (← j.getObjVal? "y")))
+  | "modif" => pure (.modif (← getStr j "mt") (← getStr j "name") (← pnOfJson (← j.getObjVal? "x")))
+  | "array" => pure (.array (← (← getArr j "shape").toList.mapM (·.getNat?)) (← attrsOf "attrs"))
+  | "list" => pure (.list ((getBool j "tuple").toOption.getD false) (← listOf "items"))
+  | s => throw s!"bad PN kind {s}"
+
+def jsonOfScal : Scal Float → Json
+  | .null => Json.null
+  | .bool b => Json.bool b
+  | .int i => Json.mkObj [("i", Json.num (Lean.JsonNumber.fromInt i))]
+  | .num v => Json.mkObj [("f", hexOfFloat v)]
+  | .str s => Json.mkObj [("s", s)]
+
+partial def jsonOfJV : JV Float → Json
+  | .scal s => jsonOfScal s
+  | .arr items => Json.arr (items.map jsonOfJV).toArray
+  | .obj fields => Json.mkObj [("o", Json.arr (fields.map (fun (k, v) => Json.arr #[Json.str k, jsonOfJV v])).toArray)]
+
+/-- the REAL dictionary (in the `JV` wire encoding) read into the typed form: dispatch on `"type"` -/
+partial def dvOfJson (j : Json) : Except String (DV Float) := do
+  match j.getObjVal? "o" with
+  | .error _ => pure (.lit (← scalOfJson j))
+  | .ok o =>
+    let fields ← (← o.getArr?).toList.mapM (fun a => do
+      let pair ← a.getArr?
+      if pair.size != 2 then throw "bad field"
+      pure ((← pair[0]!.getStr?), pair[1]!))
+    let get (k : String) : Except String Json :=
+      match fields.find? (·.1 == k) with
+      | some (_, v) => pure v
+      | none => throw s!"missing key {k}"
+    let str (k : String) : Except String String := do
+      match ← scalOfJson (← get k) with
+      | .str s => pure s
+      | _ => throw s!"{k}: not a string"
+    let num (k : String) : Except String Float := do
+      match ← scalOfJson (← get k) with
+      | .num v => pure v
+      | .int i => pure (Float.ofInt i)
+      | _ => throw s!"{k}: not a number"
+    let args (j : Json) : Except String (List (String × Json)) := do
+      (← (← j.getObjVal? "o").getArr?).toList.mapM (fun a => do
+        let pair ← a.getArr?
+        if pair.size != 2 then throw "bad field"
+        pure ((← pair[0]!.getStr?), pair[1]!))
+    let dvArgs (kvs : List (String × Json)) : Except String (List (String × DV Float)) :=
+      kvs.mapM (fun (k, v) => do pure (k, ← dvOfJson v))
+    let asserts : Except String (List (DV Float)) :=
+      match fields.find? (·.1 == "assertions") with
+      | some (_, Json.arr arr) => arr.toList.mapM dvOfJson
+      | _ => pure []
+    match ← str "type" with
+    | "model" => pure (.model (← str "class_path") (← asserts) (← dvArgs (← args (← get "arguments"))))
+    | "instance" => pure (.inst (← str "class_path") (← dvArgs (← args (← get "arguments"))))
+    | "collection" =>
+        let n ← match fields.find? (·.1 == "item_number") with
+          | some (_, v) => (do match ← scalOfJson v with
+              | .int i => pure i.toNat
+              | _ => throw "item_number")
+          | none => pure 0
+        pure (.coll (← asserts) n (← dvArgs (← args (← get "arguments"))))
+    | "tuple_prior" => pure (.tuple (← dvArgs (← args (← get "arguments"))))
+    | "compound" =>
+        let ct ← str "compound_type"
+        if ct == "CompoundAssertion" then
+          pure (.both (← dvOfJson (← get "assertion_1")) (← dvOfJson (← get "assertion_2")))
+        else pure (.compound ct (← dvOfJson (← get "left")) (← dvOfJson (← get "right")))
+    | "modified" => pure (.modified (← str "modified_type") (← str "name") (← dvOfJson (← get "prior")))
+    | "array" =>
+        let a ← args (← get "arguments")
+        let shapeJ ← match a.find? (·.1 == "shape") with
+          | some (_, v) => pure v
+          | none => throw "array without shape"
+        let shapeVals ← (← (match (← args shapeJ).find? (·.1 == "values") with
+          | some (_, v) => pure v
+          | none => throw "shape without values")).getArr?
+        let shape ← shapeVals.toList.mapM (fun v => do match ← scalOfJson v with
+          | .int i => pure i.toNat
+          | _ => throw "shape entry")
+        -- `Array.from_dict`: `if key.startswith("prior")`
+        pure (.array shape (← dvArgs (a.filter (fun kv => kv.1.startsWith "prior"))))
+    | "list" => pure (.list false (← (← (← get "values").getArr?).toList.mapM dvOfJson))
+    | "tuple" => pure (.list true (← (← (← get "values").getArr?).toList.mapM dvOfJson))
+    | t =>
+        let kind ← pkindOf t
+        let id ← match ← scalOfJson (← get "id") with
+          | .int i => pure i.toNat
+          | _ => throw "prior id"
+        let lo ← num "lower_limit"
+        let hi ← num "upper_limit"
+        let mean ← if kind.hasMoments then num "mean" else pure 0.0
+        let sigma ← if kind.hasMoments then num "sigma" else pure 0.0
+        let d : PDesc Float := { kind := kind, lo := lo, hi := hi, mean := mean, sigma := sigma }
+        pure (.prior id d)
+
+/-- what is reported about a (re)loaded composition: advertised paths in parameter order, identity
+ranks, count, and its own dictionary with every id replaced by its rank -/
+def reportPN (r : PN Float) : Json :=
+  let e := erase (fun _ => []) r
+  let pp := pathPriors e
+  let ids := uniqueIds e
+  let rank (i : Nat) : Nat := (indexOf? ids i).getD 0
+  let allIds := sortDedup (pnLoadOrder r)
+  let rankAll (i : Nat) : Nat := (indexOf? allIds i).getD 0
+  Json.mkObj [
+    ("count", Json.num ((count e : Nat) : Lean.JsonNumber)),
+    ("paths", Json.arr ((pp.map (·.1)).map jsonOfPath).toArray),
+    ("path_ranks", Json.arr (pp.map (fun x => Json.num ((rank x.2 : Nat) : Lean.JsonNumber))).toArray),
+    ("redict", jsonOfJV (render (toDV (renamePN rankAll r))))]
+
+/-- class table: scalar defaults of constructor arguments, by class path -/
+def defaultsOfJson (j : Json) : Except String (String → List (String × Scal Float)) := do
+  match j.getObjVal? "defaults" with
+  | .error _ => pure (fun _ => [])
+  | .ok d =>
+    let entries ← (← d.getArr?).toList.mapM (fun e => do
+      let pair ← e.getArr?
+      if pair.size != 2 then throw "bad defaults entry"
+      let args ← (← pair[1]!.getArr?).toList.mapM (fun a => do
+        let kv ← a.getArr?
+        if kv.size != 2 then throw "bad default"
+        pure ((← kv[0]!.getStr?), (← scalOfJson kv[1]!)))
+      pure ((← pair[0]!.getStr?), args))
+    pure (fun cp => match entries.find? (·.1 == cp) with
+      | some (_, a) => a
+      | none => [])
+
+def handleC08Dict (q : String) (j : Json) : Except String Json := do
+  let base := (getNat j "base").toOption.getD 1000000
+  let dflt ← defaultsOfJson j
+  match q with
+  | "todict" =>
+      -- the writer on the extracted composition, and the model's own round trip of it
+      let t ← pnOfJson (← j.getObjVal? "pn")
+      let n := (getNat j "times").toOption.getD 1
+      pure (Json.mkObj [
+        ("dict", jsonOfJV (render (toDV t))),
+        ("reload", reportPN (dictRTn dflt t base 1000 n))])
+  | "fromdict" =>
+      -- the reader on the REAL dictionary
+      let d ← dvOfJson (← j.getObjVal? "dict")
+      pure (reportPN (fromDV dflt d { next := base }).1)
+  | "asserts" =>
+      -- the reader on the REAL dictionary, then the verdict of every assertion of the reloaded model for values
+      -- given per identity rank
+      let d ← dvOfJson (← j.getObjVal? "dict")
+      let r := (fromDV dflt d { next := base }).1
+      let vals ← vecOfJson (← j.getObjVal? "vals")
+      let allIds := sortDedup (pnLoadOrder r)
+      let ρ (i : Nat) : Inst Float := match indexOf? allIds i with
+        | some k => (match vals[k]? with
+            | some v => .num v
+            | none => .missing)
+        | none => .missing
+      pure (Json.mkObj [("verdicts", Json.arr ((assertVerdicts floatOps (fun _ => []) ρ r).map Json.bool).toArray)])
+  | "pickle" =>
+      let t ← pnOfJson (← j.getObjVal? "pn")
+      let r := pickleRT t
+      let e := erase (fun _ => []) r
+      pure (Json.mkObj [
+        ("paths", Json.arr (((pathPriors e).map (·.1)).map jsonOfPath).toArray),
+        ("ids", Json.arr ((pathPriors e).map (fun x => Json.num ((x.2 : Nat) : Lean.JsonNumber))).toArray),
+        ("dict", jsonOfJV (render (toDV r)))])
+  | "dbcounter" =>
+      -- member names of a collection's rows -> the counter of the rebuilt collection
+      let names ← (← getArr j "names").toList.mapM (·.getStr?)
+      let pos (n : String) : Option Nat := if n.length > 0 && n.all Char.isDigit then n.toNat? else none
+      pure (Json.mkObj [("item_number", Json.num ((nextPosition (names.map pos) : Nat) : Lean.JsonNumber))])
+  | s => throw s!"bad C08 question {s}"
+
 def handleC08 (j : Json) : Except String Json := do
+  match getStr j "q" with
+  | .ok q => handleC08Dict q j
+  | .error _ =>
   let parsed ← parseNode (← j.getObjVal? "comp")
   let t := parsed.node
   let base := (getNat j "base").toOption.getD 1000000
